@@ -22,18 +22,19 @@ open Tins Tins.Wire
 open Tins.Wire.L2 (layerView splitRaw stripView padOf ViewEq IsTail TailInner cxOf)
 
 /-- **the one-layer step of the second-serialization fixed point, every covered class** -/
-theorem fix_all (ps ps' : List LayerInfo) (x : AnyObj) (os os' : List AnyObj) (hok : LayerOK x os)
-    (hna : NoApp x) (hpay : (splitRaw (x :: os)).2 ≠ [])
+theorem fix_all (ps ps' : List LayerInfo) (x : AnyObj) (os os' : List AnyObj) (k e2 : Nat) (hok : LayerOK x os)
+    (hna : ∀ q, x = .l2 (.dot1q q) → q.appendPadding = true → e2 = x.trl (sizeOfStack os) + k)
+    (hpay : (splitRaw (x :: os)).2 ≠ [])
     (region io : Bytes)
     (hlen : region.length = x.hdr + sizeOfStack os + x.trl (sizeOfStack os))
     (hio : (region.drop x.hdr).take (sizeOfStack os) = io) (hiol : io.length = sizeOfStack os)
     (hnil : os = [] → io = []) (hraw : ∀ p, os = [.raw p] → io = p)
     (hpos : ∀ y r, nextA os = .obj y r → 0 < io.length) (hnostp : ∀ s r, os ≠ .app (.stp s) :: r)
     (out : Bytes) (hw : x.write (cxOf ps os) region = .ok out)
-    (n : String) (k : Nat) (hn : EntryName n x) (hk : PadCondN ps n x k)
+    (n : String) (hn : EntryName n x) (hk : PadCondN ps n x k)
     (x' : AnyObj) (inner : Inner) (hp : parseOne n (out ++ List.replicate k 0) = .ok (x', inner))
     (hps : ParentSim ps ps') (hkeys : (infos os').map L2.key = (infos os).map L2.key)
-    (e2 : Nat) (he2 : e2 = 0 ∨ (e2 = x.trl (sizeOfStack os) + k ∧ cut x e2 = e2))
+    (he2 : e2 = 0 ∨ (e2 = x.trl (sizeOfStack os) + k ∧ cut x e2 = e2))
     (hsz : sizeOfStack os' = sizeOfStack os + e2) :
     FixStep x x' os os' (cxOf ps' os') io out k e2 := by
   obtain ⟨hinv, hser, hside, hlink⟩ := hok
@@ -48,7 +49,8 @@ theorem fix_all (ps ps' : List LayerInfo) (x : AnyObj) (os os' : List AnyObj) (h
       · cases he
     have hname : n = (L2.info o).1 := by rcases hn with h | h; exact h; exact h.elim
     subst hname
-    have hna' : ∀ q, o = .dot1q q → q.appendPadding = false := fun q hq => hna q (by rw [hq])
+    have hna' : ∀ q, o = .dot1q q → q.appendPadding = true → e2 = L2.trl o (sizeOfStack os) + k :=
+      fun q hq hqa => hna q (by rw [hq]) hqa
     have hid : x' = .l2 (L2.wr (cxOf ps os) o) ∧ L2.ObjInv (L2.wr (cxOf ps os) o) ∧ L2.Serializable (L2.wr (cxOf ps os) o) ∧
         (∀ l, o = .llc l → (cxOf ps os).innerCls ≠ some "STP") := by
       rcases linkAll_l2_cases o os hlink with ⟨y, r, rfl, hy, hl⟩ | ⟨y, r, nn, rfl, hy, hl⟩ | ⟨s, r, rfl, hl⟩ | hl
@@ -80,8 +82,8 @@ theorem fix_all (ps ps' : List LayerInfo) (x : AnyObj) (os os' : List AnyObj) (h
         | bad => rw [hnx] at hl; simp [L2.Link] at hl
     obtain ⟨hx', hwi1, hwi2, hstp⟩ := hid
     subst hx'
-    exact l2_fix (cxOf ps os) (cxOf ps' os') o os os' hinv hser ⟨hwi1, hwi2⟩ hna' hstp rfl rfl region io hlen hio out hw k hk0 hsim
-      e2 he2 hsz
+    exact l2_fix (cxOf ps os) (cxOf ps' os') o os os' k e2 hinv hser ⟨hwi1, hwi2⟩ hna' hstp rfl rfl region io hlen hio out hw hk0
+      hsim he2 hsz
   | ip6 o =>
     cases o with
     | ip6 p =>
